@@ -712,7 +712,7 @@ func c02Own(c *Ctx) {
 	}
 	castFn, _ := c.P.Global("packet", "cast").(*types.Func)
 	if castFn != nil {
-		for _, fi := range c.P.LibFuncs("packet") {
+		for _, fi := range c.P.LibFuncsAll("packet") {
 			if fi.Decl.Body == nil {
 				continue
 			}
@@ -1031,7 +1031,7 @@ func c02IntBounds(c *Ctx) {
 		return
 	}
 	intT := types.Typ[types.Int]
-	for _, fi := range c.P.LibFuncs("packet") {
+	for _, fi := range c.P.LibFuncsAll("packet") {
 		if fi.Decl.Body == nil {
 			continue
 		}
